@@ -120,7 +120,8 @@ def gen_let(w, r, cfg):
     return dict(op='let', kind=kind, how=how, a=_ri(r), pairs=pairs,
                 keep=r.random() < cfg['keep_rate'],
                 cm=[r.choice([0, 0, 0, 1, 2]) for _ in pairs] if (kind == 'fn' and r.random() < 0.4) else None,
-                reuse=_ri(r) if r.random() < 0.3 else None)
+                reuse=_ri(r) if r.random() < 0.3 else None,
+                more_single=([[_ri(r), _ri(r, w.nv), _ri(r)] for _ in range(4)] if kind == 'fn' else []))
 
 
 def gen_cube(w, r, cfg):
